@@ -249,7 +249,10 @@ class SocksRun(object):
         elif tk == 'ipv6':
             sim.probe('target-ipv6')
             b = ch.pick([None, b'\x00' * 16, b'\x00' * 15 + b'\x01', b'\xff' * 16,
-                         bytes.fromhex('20010db8000000000000000000000001')], 'v6b')
+                         bytes.fromhex('20010db8000000000000000000000001'),
+                         # IPv4-mapped / IPv4-compatible / 6to4 literals are still 16-byte addresses on the wire
+                         bytes.fromhex('00000000000000000000ffff01020304'), bytes.fromhex('00000000000000000000000001020304'),
+                         bytes.fromhex('2002c000020400000000000000000001')], 'v6b')
             if b is None:
                 b = ch.bytes(16, 'v6')
             a = ipaddress.IPv6Address(b)
